@@ -145,17 +145,20 @@ func (s *Seq) flush() {
 	}
 	f := s.fails[0]
 	sig := f.sig
-	// root-cause label: a hostile input accepted earlier in the sequence (only for clauses that do not carry a
-	// structural class of their own)
+	what0 := f.what
+	// root-cause label: once a hostile input (an id that equals a hashed storage key of another miner, an account
+	// whose bytes are a JSON miner record) has been accepted, the registry storage is corrupted and any clause
+	// can fail; such blocks are classified by the hostile input, the failed clause is named in the text.
+	// Clauses with a structural class of their own (…-in-one-block) keep it.
 	if !strings.Contains(sig, "-in-one-block") {
 		switch {
 		case s.taint["json-shaped-account"] && (strings.Contains(sig, "iterator-yields-un") || !s.taint["id-aliasing-hashed-registry-key"]):
-			sig += ":after-json-shaped-account"
+			sig, what0 = "C20:hostile-account:json-shaped-account-yields-phantom-miner", f.sig+": "+f.what
 		case s.taint["id-aliasing-hashed-registry-key"]:
-			sig += ":after-id-aliasing-hashed-registry-key"
+			sig, what0 = "C20:hostile-id:aliases-hashed-registry-key-of-another-miner", f.sig+": "+f.what
 		}
 	}
-	what := f.what
+	what := what0
 	if n := len(s.fails) - 1; n > 0 {
 		seen := map[string]bool{f.sig: true}
 		var more []string
